@@ -1,10 +1,38 @@
-"""torch.optim stand-in (types only)."""
+"""torch.optim stand-in.  What matters for C19 is kept as in PyTorch: an optimizer holds REFERENCES to the parameter tensors
+it was given, step() updates in place those of them that have a grad (a parameter whose grad is None is skipped) and
+zero_grad() clears the grads of the parameters it holds."""
 from . import lr_scheduler  # noqa: F401
 
 
 class Optimizer:
+    def __init__(self, params=(), lr=1, **kw):
+        self.param_groups = [{"params": list(params), "lr": lr}]
+        self.steps = 0
+
+    def _params(self):
+        return [p for g in self.param_groups for p in g["params"]]
+
+    def step(self, closure=None):
+        self.steps += 1
+        for p in self._params():
+            if p.grad is not None:
+                p.copy_(p._v + self.param_groups[0]["lr"])      # observed as an in-place write of that tensor
+
+    def zero_grad(self, set_to_none=True):
+        for p in self._params():
+            if p.grad is not None:
+                p.grad = None
+
     def state_dict(self):
-        return {}
+        return {"steps": self.steps}
 
     def load_state_dict(self, d):
-        pass
+        self.steps = d.get("steps", 0)
+
+
+class SGD(Optimizer):
+    pass
+
+
+class Adam(Optimizer):
+    pass
